@@ -89,6 +89,9 @@ class _Sys:
         self.model = None  # (birth, {proto: listing})
         self.names_state = 0
         self.trace = []
+        # which protocols have looked at the current cache entry (writer first): anything a server
+        # process remembers about an entry can only depend on who has touched it
+        self.readers = ()
 
     def destroy(self):
         self.w.destroy()
@@ -176,6 +179,10 @@ class _Sys:
         elif must_miss and self.L > 0 and bad is None:
             bad = ("not-rewritten", "a miss at t=%d did not rewrite the cache file" % (now - T0))
         self.model = newmodel if self.L > 0 else None
+        if must_miss:
+            self.readers = (proto,)
+        elif proto not in self.readers:
+            self.readers = self.readers + (proto,)
         return bad
 
     def canon(self):
@@ -194,7 +201,7 @@ class _Sys:
         mdl = None
         if self.model is not None:
             mdl = (min(CLOCK.now - self.model[0], self.L), core.h64(repr(sorted(self.model[1].items()))))
-        return core.h64(self.L, tree, cache, age, mdl, self.names_state)
+        return core.h64(self.L, tree, cache, age, mdl, self.names_state, self.readers[:1], tuple(sorted(self.readers[1:])))
 
 
 def run_history(L, hist):
@@ -242,7 +249,7 @@ def replay(case):
 
 def run(ck):
     depth = 5 if ck.tier == "quick" else 8
-    cap_states = 4000 if ck.tier == "quick" else 40000
+    cap_states = 12000 if ck.tier == "quick" else 40000
     total_states = 0
     for L in (10, 0):
         seen = set()
